@@ -138,6 +138,7 @@ NAMESETS = [
     ["Y(N2)", "Y(H2O)", "y_velocity", "z_velocity", "x_velocity", "I_R(H2)", "mixture_fraction"],
     ["temp"],
     ["t.mp", "temp", "t+mp", "Y(CH4)", "my(field)", "gradpx"],
+    ["soot", "soot_N", "rho", "rhoE", "phi_old", "phi", "temp"],        # user fields that are prefixes of later user fields
 ]
 
 
